@@ -208,6 +208,9 @@ class BuiltinMixin(object):
 
   def b_callable(self, st, args, kwargs):
     v = args[0]
+    if isinstance(v, VVal):
+      # a value of unknown type: callable exactly when it is (tagged as) a callable object
+      return [(st, VBool(Val.is_VC(v.t)))]
     return [(st, VBool(isinstance(v, (VFunc, VBuiltin, VCallable, VClass))))]
 
   def b_hasattr(self, st, args, kwargs):
@@ -216,6 +219,9 @@ class BuiltinMixin(object):
     if isinstance(obj, VRef) and isinstance(obj.cls, ClassInfo):
       r = obj.cls.find_method(nm) is not None or self.has_field(st, obj, nm) or obj.cls.find_class_attr(nm)[1] is not None
       return [(st, VBool(bool(r)))]
+    if isinstance(obj, VCallable):
+      # opaque user object: whether it carries the attribute is a fixed, unknown fact about that object
+      return [(st, VBool(z3.Function('has_attr_' + nm, z3.IntSort(), z3.BoolSort())(obj.t)))]
     raise Unsupported('hasattr on %r' % (obj,))
 
   def b_getattr(self, st, args, kwargs):
@@ -293,6 +299,10 @@ class BuiltinMixin(object):
     if isinstance(it, VGen_()):
       rs = self.gen_values(st, it)
       if rs is None:
+        if not self.spec_mode:
+          folded = self.fold_with_exceptions(st, it, universal)
+          if folded is not None:
+            return folded
         return [(st, VBool(self.quantify(st, it, universal)))]
       out = []
       for s, vals in rs:
@@ -604,6 +614,14 @@ class BuiltinMixin(object):
     if isinstance(it, VRef) and isinstance(it.cls, str) and it.cls.startswith('gen:'):
       return self.co_resume(st, it, None)
     raise Unsupported('next() on %r' % (it,))
+
+  def b_raises_on(self, st, args, kwargs):
+    """spec: the opaque callable args[0] raises when called with args[1:] (its fixed, unknown raise predicate)."""
+    fn = args[0]
+    if isinstance(fn, VVal):
+      fn = VCallable(Val.c(fn.t), label=kwargs['label'].t.as_string() if 'label' in kwargs else 'fn')
+    f = z3.Function('op_raises_' + fn.label, *([z3.IntSort()] + [Val] * (len(args) - 1) + [z3.BoolSort()]))
+    return [(st, VBool(f(fn.t, *[self.to_val(st, a) for a in args[1:]])))]
 
   def b_class_named(self, st, args, kwargs):
     """spec: the class object with this (unqualified or dotted-suffix) name, independent of the enclosing module's imports."""
